@@ -54,6 +54,13 @@ class FuncInfo:
         return any("abstractmethod" in d for d in self.decorators)
 
     @property
+    def is_wrapped(self):
+        """Decorated with something that replaces the function by another callable (a cache, a wrapper): its body no
+        longer says what a call does, so nothing may be inlined or summarised through it."""
+        plain = ("property", "staticmethod", "classmethod", "abc.abstractmethod", "abstractmethod", "typing.overload", "overload")
+        return any(not (d in plain or d.endswith(".getter") or d.endswith(".setter") or d.endswith(".deleter")) for d in self.decorators)
+
+    @property
     def params(self) -> List[str]:
         a = self.node.args
         return [x.arg for x in a.posonlyargs + a.args]
